@@ -3,6 +3,7 @@
 
 mod c11;
 mod c12;
+mod c14;
 mod c18;
 mod clients;
 mod server;
@@ -41,6 +42,7 @@ fn main() {
     let report: Report = match cmd.as_str() {
         "c11" => c11::run(&args, &tier, seed, BACKEND),
         "c12" => c12::run(&args, &tier, seed, BACKEND),
+        "c14" => c14::run(&args, &tier, seed),
         "c18" => c18::run(&args, &tier, seed),
         _ => {
             eprintln!("unknown check {cmd}");
